@@ -230,7 +230,8 @@ Ltac iter_cases H :=
   end;
   [ | match type of H with context [match ?o with ODialErr => _ | _ => _ end] => destruct o as [|cf|ce] end;
       [ | unfold dial_ok in H; land_dest;
-          match type of H with (if ?c then _ else _) = _ => destruct c end
+          match type of H with (if ?c then _ else _) = _ => destruct c end;
+          [ | let Bk := fresh "Bk" in match type of H with (if ?c then _ else _) = _ => destruct c eqn:Bk end ]
         | unfold dial_ok in H; land_dest;
           match type of H with (if ?c then _ else _) = _ => destruct c end;
           [ | land_dest; match type of H with (if ?c then _ else _) = _ => destruct c end ] ] ].
@@ -285,13 +286,14 @@ Proof.
   intros H. unfold wait_used. iter_cases H.
   - injection H as <- <-. sw. reflexivity.
   - apply wp_tail in H as (tail & -> & Tq & T). destruct Lc as (Cw & _).
-    destruct r; cbn [is_success]; sw; [destruct T as (-> & -> & _); rewrite Cw; auto | exact T | exact T].
+    destruct r; cbn [is_success]; sw; [destruct T as (-> & -> & _); rewrite Cw; auto | exact T | exact T | exact T].
+  - injection H as <- <-. sw. reflexivity.
   - injection H as <- <-. sw. reflexivity.
   - apply wp_tail in H as (tail & -> & Tq & T). destruct Lc as (Cw & _). destruct Lc0 as (Cw0 & _).
     assert (Hw : l_wait (match l_task stL0 with DQueued => set_task DRan stL0 | _ => stL0 end) = l_wait st)
       by (destruct (l_task stL0); cbn [set_task l_wait]; rewrite Cw0; cbn [set_client l_wait]; exact Cw).
     cbn [is_success].
-    destruct r; sw; [destruct T as (-> & -> & _); rewrite Hw; auto | exact T | exact T].
+    destruct r; sw; [destruct T as (-> & -> & _); rewrite Hw; auto | exact T | exact T | exact T].
   - injection H as <- <-. sw. reflexivity.
   - injection H as <- <-. sw. reflexivity.
   - destruct Lc1 as (Cw1 & _).
@@ -300,7 +302,7 @@ Proof.
     + injection H as <- <-. destruct (l_task stL1); sw; exact Xw.
     + destruct ce.
       1-3: apply wp_tail in H as (tail & -> & Tq & T); cbn [is_success];
-        (destruct r; sw; [destruct T as (-> & -> & _); rewrite Cw1; cbn [set_first set_wait l_wait]; auto | exact T | exact T]).
+        (destruct r; sw; [destruct T as (-> & -> & _); rewrite Cw1; cbn [set_first set_wait l_wait]; auto | exact T | exact T | exact T]).
       injection H as <- <-. sw. exact Xw.
 Qed.
 
@@ -369,15 +371,16 @@ Proof.
   - injection H as <- <-. repeat split; [sd | so | sc]; reflexivity.
   - apply wp_tail in H as (tail & -> & Tq & T). destruct Lc as (_ & _ & _ & _ & Ci).
     repeat split; [sd; reflexivity | so; reflexivity | sc; reflexivity |].
-    destruct r; [|exact I|exact I]. destruct T as (_ & _ & Ti & _ & _ & _ & Tx).
+    destruct r; [|exact I|exact I|exact I]. destruct T as (_ & _ & Ti & _ & _ & _ & Tx).
     repeat split; [so; reflexivity | rewrite Ti, Ci; reflexivity | sx; exact Tx].
+  - injection H as <- <-. norm_apps. repeat split; [sd | so | sc]; reflexivity.
   - injection H as <- <-. norm_apps. repeat split; [sd | so | sc]; reflexivity.
   - apply wp_tail in H as (tail & -> & Tq & T).
     destruct Lc as (_ & _ & _ & _ & Ci). destruct Lc0 as (_ & _ & _ & _ & Ci0).
     assert (Hi : l_iter (match l_task stL0 with DQueued => set_task DRan stL0 | _ => stL0 end) = l_iter st)
       by (destruct (l_task stL0); cbn [set_task l_iter]; rewrite Ci0; cbn [set_client l_iter]; exact Ci).
     norm_apps. repeat split; [sd; reflexivity | so; reflexivity | sc; reflexivity |].
-    destruct r; [|exact I|exact I]. destruct T as (_ & _ & Ti & _ & _ & _ & Tx).
+    destruct r; [|exact I|exact I|exact I]. destruct T as (_ & _ & Ti & _ & _ & _ & Tx).
     repeat split; [so; reflexivity | rewrite Ti, Hi; reflexivity | sx; exact Tx].
   - injection H as <- <-. norm_apps. repeat split; [sd | so | sc]; reflexivity.
   - injection H as <- <-. norm_apps. repeat split; [sd | so | sc]; reflexivity.
@@ -388,7 +391,7 @@ Proof.
     + destruct ce.
       1-3: apply wp_tail in H as (tail & -> & Tq & T); norm_apps;
         (repeat split; [sd; reflexivity | so; reflexivity | sc; reflexivity |]);
-        (destruct r; [|exact I|exact I]); destruct T as (_ & _ & Ti & _ & _ & _ & Tx);
+        (destruct r; [|exact I|exact I|exact I]); destruct T as (_ & _ & Ti & _ & _ & _ & Tx);
         (repeat split; [so; reflexivity | rewrite Ti, Ci1; cbn [set_first set_wait l_iter]; rewrite Ci0; cbn [set_client l_iter]; exact (f_equal S Ci) | sx; exact Tx]).
       injection H as <- <-. norm_apps. repeat split; [sd | so | sc]; reflexivity.
 Qed.
@@ -427,6 +430,7 @@ Lemma wp_stop_facts cfg sc evs st e r :
   exists tail, e = evs ++ tail /\ forallb safe_ev tail = true /\
     match r with
     | Crashed => False
+    | Blocked _ => False
     | Running s => l_disc s = l_disc st || negb (nodisc tail) /\ l_cancel s = l_cancel st || negb (nocancel tail) /\
                    l_disc s = false /\ (l_cancel s = false \/ l_first s = true) /\ l_first s = l_first st
     | Exited s => l_disc s = l_disc st || negb (nodisc tail) /\ l_cancel s = l_cancel st || negb (nocancel tail) /\
@@ -511,11 +515,24 @@ Ltac core_hyps := repeat match goal with H : core_eq _ _ |- _ => destruct H as (
 Ltac first_goal :=
   intros; core_hyps; cbn [set_first set_wait set_client set_task next_iter l_first is_success] in *; first [discriminate | congruence].
 
+Lemma blocks_true cfg f st :
+  blocks cfg f st = true ->
+  f = CNoConnack /\ (c_abort cfg = true -> l_disc st = false) /\ (l_cancel st = false \/ l_first st = true).
+Proof.
+  unfold blocks. destruct f; try discriminate. intros H. apply negb_true_iff in H.
+  apply orb_false_iff in H as [H H3]. apply orb_false_iff in H as [_ H2]. split; [reflexivity|]. split.
+  - intros A. rewrite A in H3. exact H3.
+  - destruct (l_cancel st); [right | left; reflexivity]. destruct (l_first st); [reflexivity | discriminate].
+Qed.
+
 Lemma it_stop_facts cfg sc st o e r :
   c_guard cfg = true -> iteration cfg sc st o = (e, r) ->
   exists body, e = EvDial (l_iter st) :: body /\ forallb safe_ev body = true /\
     match r with
     | Crashed => False
+    | Blocked s => l_disc s = l_disc st || negb (nodisc body) /\ l_cancel s = l_cancel st || negb (nocancel body) /\
+                   (c_abort cfg = true -> l_disc s = false) /\ (l_cancel s = false \/ l_first s = true) /\
+                   l_first s = l_first st
     | Running s => l_disc s = l_disc st || negb (nodisc body) /\ l_cancel s = l_cancel st || negb (nocancel body) /\
                    l_disc s = false /\ (l_cancel s = false \/ l_first s = true) /\
                    (is_success o = false -> l_first s = l_first st)
@@ -531,17 +548,21 @@ Proof.
   - (* dial error *)
     apply (wp_stop_facts _ _ _ _ _ _ G) in H as (tail & -> & Ts & T).
     eexists. split; [cbn [app]; reflexivity|]. split; [safe_goal|].
-    destruct r; [| |exact T].
+    destruct r; [| |destruct T|destruct T].
     + destruct T as (Td & Tc & T'). split; [rewrite Td; eq_goal|]. split; [rewrite Tc; eq_goal|].
       destruct T' as (? & ? & ?). split; [assumption|]. split; [assumption|]. first_goal.
     + destruct T as (Td & Tc & t' & ->). split; [rewrite Td; eq_goal|]. split; [rewrite Tc; eq_goal|]. ends.
+  - (* the handshake waits for ever *)
+    injection H as <- <-. eexists. split; [cbn [app]; reflexivity|]. split; [safe_goal|].
+    apply blocks_true in Bk as (_ & Ba & Bc).
+    split; [eq_goal|]. split; [eq_goal|]. split; [exact Ba|]. split; [exact Bc|]. first_goal.
   - (* connect failed *)
     assert (Hd3 : l_disc (match l_task stL0 with DQueued => set_task DRan stL0 | _ => stL0 end) = l_disc stL0) by (destruct (l_task stL0); reflexivity).
     assert (Hc3 : l_cancel (match l_task stL0 with DQueued => set_task DRan stL0 | _ => stL0 end) = l_cancel stL0) by (destruct (l_task stL0); reflexivity).
     assert (Hf3 : l_first (match l_task stL0 with DQueued => set_task DRan stL0 | _ => stL0 end) = l_first stL0) by (destruct (l_task stL0); reflexivity).
     apply (wp_stop_facts _ _ _ _ _ _ G) in H as (tail & -> & Ts & T). rewrite Hd3, Hc3, Hf3 in T.
     eexists. split; [cbn [app]; reflexivity|]. split; [safe_goal|].
-    destruct r; [| |exact T].
+    destruct r; [| |destruct T|destruct T].
     + destruct T as (Td & Tc & T'). split; [rewrite Td; eq_goal|]. split; [rewrite Tc; eq_goal|].
       destruct T' as (? & ? & ?). split; [assumption|]. split; [assumption|]. first_goal.
     + destruct T as (Td & Tc & t' & ->). split; [rewrite Td; eq_goal|]. split; [rewrite Tc; eq_goal|]. ends.
@@ -552,7 +573,7 @@ Proof.
     + destruct ce.
       1-3: apply (wp_stop_facts _ _ _ _ _ _ G) in H as (tail & -> & Ts & T);
         (eexists; split; [cbn [app]; reflexivity|]); (split; [safe_goal|]);
-        (destruct r; [| |exact T]);
+        (destruct r; [| |destruct T|destruct T]);
         [ destruct T as (Td & Tc & T'); (split; [rewrite Td; eq_goal|]); (split; [rewrite Tc; eq_goal|]);
           destruct T' as (? & ? & ?); (split; [assumption|]); (split; [assumption|]); first_goal
         | destruct T as (Td & Tc & t' & ->); (split; [rewrite Td; eq_goal|]); (split; [rewrite Tc; eq_goal|]); ends ].
@@ -573,7 +594,7 @@ Proof.
   - cbn. split; [exists 0%nat; reflexivity | reflexivity].
   - cbn [loop]. destruct (iteration cfg sc st o) as [e1 r1] eqn:I.
     pose proof (it_waits _ _ _ _ _ _ I) as W. unfold wait_used in W.
-    destruct r1 as [st1| |]; cbn [fst snd].
+    destruct r1 as [st1|st1| |st1]; cbn [fst snd].
     + destruct W as (Hw & Hn).
       set (j' := if is_success o then 1%nat else S j).
       assert (Hj' : l_wait st1 = wait_rule (c_base cfg) (c_max cfg) j').
@@ -588,6 +609,7 @@ Proof.
       rewrite waits_app, Hw, Hs. split.
       * exists (S n). cbn [firstn app]. rewrite Hn1. reflexivity.
       * intros st' E. cbn [app]. rewrite (Hn2 st' E). reflexivity.
+    + split; [exists 0%nat; exact W | discriminate].
     + split; [exists 0%nat; exact W | discriminate].
     + split; [exists 0%nat; exact W | discriminate].
 Qed.
@@ -605,7 +627,7 @@ Lemma trace_shape cfg sc :
   (exists st, r = Exited st /\ l_disc st = false /\ trace cfg sc = e ++ post_disconnect cfg st).
 Proof.
   unfold trace, run. destruct (loop cfg sc (init_state cfg) (sc_script sc)) as [e r].
-  destruct r as [st|st|]; [left; reflexivity | | left; reflexivity].
+  destruct r as [st|st| |st]; [left; reflexivity | | left; reflexivity | left; reflexivity].
   destruct (sc_post sc && negb (l_disc st)) eqn:P; [|left; reflexivity].
   right. exists st. apply andb_true_iff in P as [_ P]. apply negb_true_iff in P. auto.
 Qed.
@@ -614,19 +636,27 @@ Local Arguments next_wait : simpl never.
 
 (* an iteration in which neither Disconnect nor a cancellation lands, and which does not end
    gracefully, goes on to the next iteration *)
+Definition is_noconnack (o : outcome) : bool := match o with OConnFail CNoConnack => true | _ => false end.
+(* an absent CONNACK ends the attempt only if a connect timeout is configured *)
+Definition can_block (cfg : config) (o : outcome) : bool := negb (c_timeout cfg) && is_noconnack o.
+
+Lemma blocks_false cfg f st : can_block cfg (OConnFail f) = false -> blocks cfg f st = false.
+Proof. unfold can_block, blocks. destruct f; try reflexivity. cbn [is_noconnack]. destruct (c_timeout cfg); [reflexivity | discriminate]. Qed.
+
 Lemma it_quiet cfg sc st o :
   (forall ph, cancel_here sc (l_iter st) ph = false) -> (forall ph, disc_here sc (l_iter st) ph = None) ->
   l_disc st = false -> (l_cancel st = false \/ l_first st = true) -> is_graceful o = false ->
+  can_block cfg o = false ->
   exists e st', iteration cfg sc st o = (e, Running st') /\ l_disc st' = false /\
                 (l_cancel st' = false \/ l_first st' = true) /\
                 (is_success o = true -> exists rest, e = [EvDial (l_iter st); EvOpen (l_k st); EvConnect (l_k st) (c_conn cfg)] ++ rest).
 Proof.
-  intros Hc Hd D C G. unfold iteration, dial_ok, wait_phase.
+  intros Hc Hd D C G B. unfold iteration, dial_ok, wait_phase.
   rewrite land_none by auto. destruct o as [|f|ce].
   - rewrite land_none by auto. rewrite D.
     assert (E : l_cancel st && negb (l_first st) = false) by (destruct C as [-> | ->]; [reflexivity | apply andb_false_r]).
     rewrite E. eexists. eexists. split; [reflexivity|]. cbn [next_iter l_disc l_cancel l_first]. repeat split; auto. discriminate.
-  - cbn [set_client l_iter]. rewrite land_none by auto.
+  - cbn [set_client l_iter]. rewrite land_none by auto. rewrite (blocks_false _ _ _ B).
     assert (E : l_cancel st && negb (l_first st) = false) by (destruct C as [-> | ->]; [reflexivity | apply andb_false_r]).
     cbn [set_client l_task l_iter]. destruct (l_task st); cbn [set_task set_client l_iter l_disc l_cancel l_first];
       rewrite land_none by auto; cbn [set_task set_client l_iter l_disc l_cancel l_first]; rewrite D, E;
@@ -647,15 +677,15 @@ Definition quiet_from (sc : scenario) (i n : nat) : Prop :=
 Lemma loop_quiet cfg sc script : forall st,
   quiet_from sc (l_iter st) (length script) ->
   l_disc st = false -> (l_cancel st = false \/ l_first st = true) ->
-  existsb is_graceful script = false ->
+  existsb is_graceful script = false -> existsb (can_block cfg) script = false ->
   exists e st', loop cfg sc st script = (e, Running st') /\
     dials e = seq (l_iter st) (length script) /\ existsb is_exit e = false /\
     l_iter st' = (l_iter st + length script)%nat /\ l_disc st' = false /\
     (l_cancel st' = false \/ l_first st' = true).
 Proof.
-  induction script as [|o rest IH]; intros st Q D C G.
+  induction script as [|o rest IH]; intros st Q D C G B.
   - exists [], st. cbn. rewrite Nat.add_0_r. repeat split; auto.
-  - cbn [existsb] in G. apply orb_false_iff in G as [G1 G2]. cbn [length] in Q.
+  - cbn [existsb] in G, B. apply orb_false_iff in G as [G1 G2]. apply orb_false_iff in B as [B1 B2]. cbn [length] in Q.
     destruct (it_quiet cfg sc st o) as (e1 & st1 & I & D1 & C1 & _); auto.
     { intros ph. apply Q. lia. } { intros ph. apply Q. lia. }
     pose proof (it_struct _ _ _ _ _ _ I) as (Sd & _ & _ & _ & Si & Sx).
@@ -675,8 +705,8 @@ Lemma loop_app cfg sc a b : forall st,
 Proof.
   induction a as [|o a IH]; intros st.
   - cbn. destruct (loop cfg sc st b). reflexivity.
-  - cbn [loop app]. destruct (iteration cfg sc st o) as [e r]. destruct r as [st1| |]; try reflexivity.
-    rewrite IH. destruct (loop cfg sc st1 a) as [e1 r1]. destruct r1 as [st2| |]; try reflexivity.
+  - cbn [loop app]. destruct (iteration cfg sc st o) as [e r]. destruct r as [st1|st1| |st1]; try reflexivity.
+    rewrite IH. destruct (loop cfg sc st1 a) as [e1 r1]. destruct r1 as [st2|st2| |st2]; try reflexivity.
     destruct (loop cfg sc st2 b) as [e2 r2]. rewrite app_assoc. reflexivity.
 Qed.
 
@@ -701,9 +731,10 @@ Qed.
 
 Theorem backoff_all cfg script post :
   0 < c_base cfg < two62 -> 0 <= c_max cfg < two62 -> existsb is_graceful script = false ->
+  existsb (can_block cfg) script = false ->
   waits (trace cfg (no_stops script post)) = spec_waits (c_base cfg) (c_max cfg) 0 script.
 Proof.
-  intros Hb Hm G.
+  intros Hb Hm G B.
   destruct (loop_quiet cfg (no_stops script post) script (init_state cfg)) as (e & st' & L & _); auto.
   { apply no_stops_quiet. }
   destruct (loop_waits cfg (no_stops script post) Hb Hm script (init_state cfg) 0%nat eq_refl) as (_ & H).
@@ -712,13 +743,13 @@ Qed.
 
 (* --- redial until connected --- *)
 Theorem redials_until_connected cfg fs ce post :
-  existsb is_graceful fs = false ->
+  existsb is_graceful fs = false -> existsb (can_block cfg) fs = false ->
   exists t1 k t2,
     trace cfg (no_stops (fs ++ [OConnected ce]) post) =
       t1 ++ [EvDial (length fs); EvOpen k; EvConnect k (c_conn cfg)] ++ t2 /\
     dials t1 = seq 0 (length fs) /\ existsb is_exit t1 = false.
 Proof.
-  intros G. set (sc := no_stops (fs ++ [OConnected ce]) post).
+  intros G B. set (sc := no_stops (fs ++ [OConnected ce]) post).
   destruct (loop_quiet cfg sc fs (init_state cfg)) as (e1 & st1 & L1 & Dl & X1 & I1 & D1 & C1); auto.
   { apply no_stops_quiet. }
   assert (L : exists e2 r2, loop cfg sc (init_state cfg) (fs ++ [OConnected ce]) =
@@ -748,10 +779,10 @@ Proof.
   induction script as [|o rest IH]; intros st; [cbn; auto|].
   cbn [loop]. destruct (iteration cfg sc st o) as [e1 r1] eqn:It.
   pose proof (it_struct _ _ _ _ _ _ It) as (_ & O1 & K1 & R1).
-  destruct r1 as [st1| |]; [|auto|auto].
+  destruct r1 as [st1|st1| |st1]; [|auto|auto|auto].
   destruct R1 as (Lv & _ & _). specialize (IH st1). destruct (loop cfg sc st1 rest) as [e2 r2].
   destruct IH as (O2 & K2 & R2). rewrite one_open_from_app, O1, Lv, O2, (conn_ok_app _ _ _ _ K1), K2.
-  repeat split. destruct r2; [|exact I|exact I]. rewrite live_from_app, Lv. exact R2.
+  repeat split. destruct r2; [|exact I|exact I|exact I]. rewrite live_from_app, Lv. exact R2.
 Qed.
 
 Theorem one_transport cfg sc : one_open (trace cfg sc) = true.
@@ -827,19 +858,19 @@ Qed.
 Lemma ends_with_existsb q E l : ends_with E l -> existsb q E = true -> existsb q l = true.
 Proof. intros [t ->] H. rewrite existsb_app, H. apply orb_true_r. Qed.
 
-Lemma loop_disc cfg sc : c_guard cfg = true -> forall script st, l_disc st = false ->
+Lemma loop_disc cfg sc : c_guard cfg = true -> c_abort cfg = true -> forall script st, l_disc st = false ->
   disc_stop_ok (fst (loop cfg sc st script)) = true /\
   match snd (loop cfg sc st script) with
   | Crashed => False
-  | Running s | Exited s => l_disc s = negb (nodisc (fst (loop cfg sc st script)))
+  | Running s | Exited s | Blocked s => l_disc s = negb (nodisc (fst (loop cfg sc st script)))
   end.
 Proof.
-  intros G. induction script as [|o rest IH]; intros st D.
+  intros G A. induction script as [|o rest IH]; intros st D.
   - cbn. auto.
   - cbn [loop]. destruct (iteration cfg sc st o) as [e1 r1] eqn:It.
     destruct (it_stop_facts _ _ _ _ _ _ G It) as (body & -> & Sb & R).
     assert (Nd : nodisc (EvDial (l_iter st) :: body) = nodisc body) by (rewrite nodisc_cons; reflexivity).
-    destruct r1 as [st1|st1|]; [| |destruct R].
+    destruct r1 as [st1|st1| |st1]; [| |destruct R|].
     + destruct R as (Rd & _ & R0 & _). rewrite D, R0 in Rd. cbn [orb] in Rd.
       assert (Nb : nodisc body = true) by (destruct (nodisc body); [reflexivity | discriminate]).
       destruct (IH st1 R0) as (Ok2 & St2). destruct (loop cfg sc st1 rest) as [e2 r2]. cbn [fst snd] in *.
@@ -858,11 +889,16 @@ Proof.
         pose proof (exit_events_facts st1) as (_ & _ & _ & _ & Xr & Xd & _).
         apply after_first_suffix in Ap; [|exact Xd].
         rewrite (ends_with_existsb _ _ _ Ap (Xr Rd)). reflexivity.
+    + (* blocked in the handshake: Disconnect has not been called (it would have aborted it) *)
+      cbn [fst snd]. destruct R as (Rd & _ & Ra & _). rewrite D in Rd. cbn [orb] in Rd. rewrite Nd. split; [|exact Rd].
+      rewrite (Ra A) in Rd. assert (Nb : nodisc body = true) by (destruct (nodisc body); [reflexivity | discriminate]).
+      unfold disc_stop_ok. cbn [after_first is_stop]. unfold nodisc in Nb. apply negb_true_iff in Nb.
+      rewrite (after_first_none _ _ Nb). reflexivity.
 Qed.
 
-Theorem stop_disconnect cfg sc : c_guard cfg = true -> disc_stop_ok (trace cfg sc) = true.
+Theorem stop_disconnect cfg sc : c_guard cfg = true -> c_abort cfg = true -> disc_stop_ok (trace cfg sc) = true.
 Proof.
-  intros G. destruct (loop_disc cfg sc G (sc_script sc) (init_state cfg) eq_refl) as (Ok & St).
+  intros G A. destruct (loop_disc cfg sc G A (sc_script sc) (init_state cfg) eq_refl) as (Ok & St).
   pose proof (trace_shape cfg sc) as T. destruct (loop cfg sc (init_state cfg) (sc_script sc)) as [e r].
   cbn [fst snd] in *. destruct T as [-> | (st & -> & D & ->)]; [exact Ok|].
   rewrite D in St. symmetry in St. apply negb_false_iff in St. unfold nodisc in St. apply negb_true_iff in St.
@@ -873,11 +909,11 @@ Qed.
 (* the same in words: whatever precedes the first Disconnect, what follows it contains no Dial
    and no panic, and contains the return of Disconnect *)
 Theorem stop_disconnect_prop cfg sc pre post :
-  c_guard cfg = true -> trace cfg sc = pre ++ EvStop SDisconnect :: post ->
+  c_guard cfg = true -> c_abort cfg = true -> trace cfg sc = pre ++ EvStop SDisconnect :: post ->
   existsb (is_stop SDisconnect) pre = false ->
   (forall i, ~ In (EvDial i) post) /\ In EvDiscReturned post /\ ~ In EvPanic post.
 Proof.
-  intros G E N. pose proof (stop_disconnect cfg sc G) as H. unfold disc_stop_ok in H.
+  intros G A E N. pose proof (stop_disconnect cfg sc G A) as H. unfold disc_stop_ok in H.
   rewrite E, (after_first_split _ pre (EvStop SDisconnect) post N eq_refl) in H.
   apply andb_true_iff in H as [H H3]. apply andb_true_iff in H as [H1 H2].
   apply negb_true_iff in H1, H3. repeat split.
@@ -920,6 +956,7 @@ Proof.
   - injection H as <- <-. nocancel_goal.
   - apply wp_nocancel in H as (tail & -> & Nt); [nocancel_goal | congruence].
   - injection H as <- <-. nocancel_goal.
+  - injection H as <- <-. nocancel_goal.
   - apply wp_nocancel in H as (tail & -> & Nt); [nocancel_goal |].
     destruct (l_task stL0); cbn [set_task l_iter]; congruence.
   - injection H as <- <-. nocancel_goal.
@@ -946,7 +983,7 @@ Lemma loop_cancel cfg sc n ph : c_guard cfg = true -> sc_cancel sc = Some (n, ph
   match snd (loop cfg sc st script) with
   | Crashed => False
   | Running s => l_cancel s = false /\ nocancel (fst (loop cfg sc st script)) = true
-  | Exited s => True
+  | Exited s | Blocked s => True
   end.
 Proof.
   intros G E. induction script as [|o rest IH]; intros st C F.
@@ -959,7 +996,7 @@ Proof.
     + (* the iteration in which the cancellation may land *)
       destruct F as (F1 & F2); [lia|]. replace (S n - l_iter st)%nat with 1%nat in F2 by lia.
       unfold all_fail in F2. cbn [firstn existsb] in F2. rewrite orb_false_r in F2. apply negb_true_iff in F2.
-      destruct r1 as [st1|st1|]; [| |destruct R].
+      destruct r1 as [st1|st1| |st1]; [| |destruct R|].
       * destruct R as (_ & Rc & _ & R1 & R2). destruct Sr as (_ & Si & _).
         assert (C1 : l_cancel st1 = false) by (destruct R1 as [R1|R1]; [exact R1 | rewrite (R2 F2), F1 in R1; discriminate]).
         rewrite C, C1 in Rc. cbn [orb] in Rc.
@@ -978,15 +1015,21 @@ Proof.
            pose proof (exit_events_facts st1) as (_ & _ & _ & Xe & _ & _ & Xc).
            apply after_first_suffix in Ap; [|exact Xc]. rewrite (ends_with_existsb _ _ _ Ap Xe). reflexivity.
         -- rewrite (after_first_none _ _ X). reflexivity.
+      * cbn [fst snd]. split; [|exact Logic.I]. destruct R as (_ & Rc & _ & R1 & R2).
+        assert (C1 : l_cancel st1 = false) by (destruct R1 as [R1|R1]; [exact R1 | rewrite R2, F1 in R1; discriminate]).
+        rewrite C, C1 in Rc. cbn [orb] in Rc.
+        assert (Nb : nocancel e1 = true) by (rewrite Nc; destruct (nocancel body); [reflexivity | discriminate]).
+        unfold nocancel in Nb. apply negb_true_iff in Nb. unfold cancel_stop_ok. rewrite (after_first_none _ _ Nb). reflexivity.
     + (* later iterations: the cancellation cannot land any more *)
       assert (Nb : nocancel e1 = true) by (apply (it_nocancel _ _ _ _ _ _ (cancel_here_other _ _ _ _ E Hn) It)).
       assert (Ne : existsb (is_stop SCancel) e1 = false) by (unfold nocancel in Nb; apply negb_true_iff in Nb; exact Nb).
-      destruct r1 as [st1|st1|]; [| |destruct R].
+      destruct r1 as [st1|st1| |st1]; [| |destruct R|].
       * destruct R as (_ & Rc & _). destruct Sr as (_ & Si & _). rewrite C, <- Nc, Nb in Rc. cbn in Rc.
         destruct (IH st1 Rc) as (Ok2 & St2); [intros; lia|].
         destruct (loop cfg sc st1 rest) as [e2 r2]. cbn [fst snd] in *.
         split; [unfold cancel_stop_ok; rewrite (after_first_app_none _ _ _ Ne); exact Ok2|].
         destruct r2; auto. destruct St2 as (? & N2). rewrite nocancel_app, Nb, N2. auto.
+      * cbn [fst snd]. split; [|exact Logic.I]. unfold cancel_stop_ok. rewrite (after_first_none _ _ Ne). reflexivity.
       * cbn [fst snd]. split; [|exact Logic.I]. unfold cancel_stop_ok. rewrite (after_first_none _ _ Ne). reflexivity.
     + (* earlier iterations: failures, the cancellation has not happened yet *)
       assert (Hlt : (l_iter st < n)%nat) by lia.
@@ -995,7 +1038,7 @@ Proof.
       unfold all_fail in F2. cbn [existsb] in F2. apply negb_true_iff, orb_false_iff in F2 as (Fo & Fr).
       assert (Nb : nocancel e1 = true) by (apply (it_nocancel _ _ _ _ _ _ (cancel_here_other _ _ _ _ E Hn) It)).
       assert (Ne : existsb (is_stop SCancel) e1 = false) by (unfold nocancel in Nb; apply negb_true_iff in Nb; exact Nb).
-      destruct r1 as [st1|st1|]; [| |destruct R].
+      destruct r1 as [st1|st1| |st1]; [| |destruct R|].
       * destruct R as (_ & Rc & _ & _ & R2). destruct Sr as (_ & Si & _). rewrite C, <- Nc, Nb in Rc. cbn in Rc.
         destruct (IH st1 Rc) as (Ok2 & St2).
         { intros _. split; [rewrite (R2 Fo); exact F1|]. rewrite Si. replace (S n - S (l_iter st))%nat with (n - l_iter st)%nat by lia.
@@ -1003,6 +1046,7 @@ Proof.
         destruct (loop cfg sc st1 rest) as [e2 r2]. cbn [fst snd] in *.
         split; [unfold cancel_stop_ok; rewrite (after_first_app_none _ _ _ Ne); exact Ok2|].
         destruct r2; auto. destruct St2 as (? & N2). rewrite nocancel_app, Nb, N2. auto.
+      * cbn [fst snd]. split; [|exact Logic.I]. unfold cancel_stop_ok. rewrite (after_first_none _ _ Ne). reflexivity.
       * cbn [fst snd]. split; [|exact Logic.I]. unfold cancel_stop_ok. rewrite (after_first_none _ _ Ne). reflexivity.
 Qed.
 
@@ -1048,7 +1092,9 @@ Definition ex_conn : connect :=
   {| c_level := 4; c_clean := true; c_keepalive := 30; c_client_id := [99; 48; 57]%N;
      c_user := []; c_pass := []; c_will := None |}.
 Definition ms (n : Z) : Z := n * 1000000.
-Definition ex_cfg : config := mkConfig (ms 20) (ms 80) ex_conn true.
+Definition ex_cfg : config := mkConfig (ms 20) (ms 80) ex_conn true true true.
+(* no connect timeout configured (ReconnectOptions.Timeout = 0, the default without keep-alive) *)
+Definition ex_cfg_nt : config := mkConfig (ms 20) (ms 80) ex_conn true false true.
 
 Example ex_ranges : 0 < c_base ex_cfg < two62 /\ 0 <= c_max ex_cfg < two62.
 Proof. cbn. unfold two62, ms. lia. Qed.
@@ -1062,7 +1108,7 @@ Proof. vm_compute. reflexivity. Qed.
 (* what the code does when base > max: the first wait (and the wait after every success) is base,
    all others are max *)
 Example ex_base_above_max :
-  waits (trace (mkConfig (ms 50) (ms 20) ex_conn true) (no_stops [ODialErr; ODialErr; OConnected EProtoErr; ODialErr] false))
+  waits (trace (mkConfig (ms 50) (ms 20) ex_conn true true true) (no_stops [ODialErr; ODialErr; OConnected EProtoErr; ODialErr] false))
   = [ms 50; ms 20; ms 50; ms 20].
 Proof. vm_compute. reflexivity. Qed.
 
@@ -1092,8 +1138,12 @@ Example ex_disconnect_every_phase :
       mkScenario [OConnFail (CRefused 2); OConnFail CNoConnack] (Some (1%nat, PConnect, true)) None false;
       mkScenario [OConnected EKeepAlive; ODialErr; OConnected EPeerClose] (Some (2%nat, PDial, true)) None false;
       mkScenario [OConnected EKeepAlive; ODialErr; OConnected EPeerClose] (Some (2%nat, PDial, false)) None false;
-      mkScenario [OConnected EGraceful] None None true ] = true.
-Proof. vm_compute. reflexivity. Qed.
+      mkScenario [OConnected EGraceful] None None true ] = true /\
+  forallb (fun sc => lands_and_stops (trace ex_cfg_nt sc))
+    [ mkScenario [OConnFail CNoConnack] (Some (0%nat, PConnect, true)) None false;        (* F18, first connection *)
+      mkScenario [OConnFail CNoConnack] (Some (0%nat, PDial, true)) None false;
+      mkScenario [OConnected EProtoErr; OConnFail CNoConnack] (Some (1%nat, PConnect, true)) None false ] = true.
+Proof. vm_compute. split; reflexivity. Qed.
 
 Example ex_cancel_before_first_success :
   let sc := mkScenario [ODialErr; OConnFail CNoConnack; ODialErr] None (Some (1%nat, PConnect)) true in
@@ -1111,9 +1161,53 @@ Proof. vm_compute. reflexivity. Qed.
 
 (* what fix cbf3ad0 repaired: without the nil guard, Disconnect before the first SetClient panics *)
 Example ex_f6_without_guard :
-  trace (mkConfig (ms 20) (ms 80) ex_conn false) (mkScenario [ODialErr; ODialErr] (Some (1%nat, PDial, true)) None false)
+  trace (mkConfig (ms 20) (ms 80) ex_conn false true true) (mkScenario [ODialErr; ODialErr] (Some (1%nat, PDial, true)) None false)
   = [EvDial 0; EvWait (ms 20); EvDial 1; EvStop SDisconnect; EvPanic].
 Proof. vm_compute. reflexivity. Qed.
+
+(* F18 - what fix 515978c repaired: no connect timeout, the broker withholds CONNACK, Disconnect is
+   called during that wait. Before the fix nothing ends the handshake: the loop stays in Connect and
+   Disconnect never returns - on the first connection and on a re-connection alike. *)
+Example ex_f18_without_fix :
+  let cfg := mkConfig (ms 20) (ms 80) ex_conn true false false in
+  run cfg (mkScenario [OConnFail CNoConnack] (Some (0%nat, PConnect, true)) None false) =
+    ([EvDial 0; EvOpen 0; EvConnect 0 ex_conn; EvStop SDisconnect],
+     Blocked (mkL (ms 20) false true true false DQueued 1 0)) /\
+  (let t := trace cfg (mkScenario [OConnected EPeerClose; OConnFail CNoConnack] (Some (1%nat, PConnect, true)) None false) in
+   existsb (is_stop SDisconnect) t = true /\ existsb is_ret t = false /\ disc_stop_ok t = false).
+Proof. vm_compute. repeat split. Qed.
+
+Theorem f18_without_fix :
+  exists cfg sc, c_guard cfg = true /\ c_abort cfg = false /\
+    existsb (is_stop SDisconnect) (trace cfg sc) = true /\ existsb is_ret (trace cfg sc) = false /\
+    (exists st, snd (run cfg sc) = Blocked st).
+Proof.
+  exists (mkConfig (ms 20) (ms 80) ex_conn true false false),
+         (mkScenario [OConnFail CNoConnack] (Some (0%nat, PConnect, true)) None false).
+  vm_compute. repeat split. eexists; reflexivity.
+Qed.
+
+(* with the fix Disconnect aborts the handshake: the client is closed, the loop exits, Disconnect returns *)
+Example ex_f18_fixed :
+  trace ex_cfg_nt (mkScenario [OConnFail CNoConnack] (Some (0%nat, PConnect, true)) None false) =
+    [EvDial 0; EvOpen 0; EvConnect 0 ex_conn; EvStop SDisconnect; EvClose 0; EvExit; EvDiscReturned] /\
+  trace ex_cfg_nt (mkScenario [OConnected EPeerClose; OConnFail CNoConnack] (Some (1%nat, PConnect, true)) None false) =
+    [EvDial 0; EvOpen 0; EvConnect 0 ex_conn; EvClose 0; EvWait (ms 20);
+     EvDial 1; EvOpen 1; EvConnect 1 ex_conn; EvStop SDisconnect; EvClose 1; EvExit; EvDiscReturned].
+Proof. vm_compute. split; reflexivity. Qed.
+
+(* before the first success the caller's context ends such a handshake as well *)
+Example ex_cancel_aborts_handshake :
+  trace ex_cfg_nt (mkScenario [OConnFail CNoConnack] None (Some (0%nat, PConnect)) true) =
+    [EvDial 0; EvOpen 0; EvConnect 0 ex_conn; EvStop SCancel; EvClose 0; EvExit; EvStop SDisconnect; EvDiscReturned].
+Proof. vm_compute. reflexivity. Qed.
+
+(* why the redial theorems exclude an absent CONNACK when no timeout is configured: nothing ever
+   ends that attempt (this is the configuration's meaning, not a defect) *)
+Example ex_no_timeout_blocks :
+  exists st, run ex_cfg_nt (no_stops [ODialErr; OConnFail CNoConnack; ODialErr] false) =
+    ([EvDial 0; EvWait (ms 20); EvDial 1; EvOpen 0; EvConnect 0 ex_conn], Blocked st).
+Proof. eexists. vm_compute. reflexivity. Qed.
 
 (* A statement that is NOT part of the property's sentences and that the faithful model refutes:
    "when the loop has exited after Disconnect, every transport it opened is closed".
